@@ -107,8 +107,9 @@ def match(entry, f, wild=False):
             return False
     elif r != f.rule:
         return False
-    if wild and entry["discriminator"] == "*":
-        return True
+    if wild and ("*" in entry["discriminator"]):
+        import fnmatch
+        return fnmatch.fnmatchcase(f.disc, entry["discriminator"])
     return entry["discriminator"] == f.disc
 
 
